@@ -1213,6 +1213,12 @@ ORDERED_FIELDS = {
     ("ir::context::BindgenContext", "codegen_items"): "std::collections::BTreeSet",
     ("ir::context::BindgenContext", "items"): "std::vec::Vec",
 }
+FIELD_ACCESSOR = {
+    ("ir::module::Module", "children"): "ir::module::Module::children",
+    ("ir::context::BindgenContext", "deps"): "ir::context::BindgenContext::deps",
+    ("ir::context::BindgenContext", "allowlisted"): "ir::context::BindgenContext::allowlisted_items",
+    ("ir::context::BindgenContext", "codegen_items"): "ir::context::BindgenContext::codegen_items",
+}
 ORDERED_HEADS = {"std::collections::BTreeSet", "std::collections::BTreeMap", "std::vec::Vec", "std::collections::VecDeque",
                  "indexmap::IndexSet", "indexmap::IndexMap"}
 # functions whose *result* orders the output: the result type must be an ordered collection
@@ -1252,7 +1258,19 @@ def r11_5(rep):
     for (adt, field), head in ORDERED_FIELDS.items():
         if head is None:
             continue
-        t = rep.need(_field_type(prog, adt, field), "field %s.%s" % (adt, field))
+        # the field is identified by its role — what the accessor hands out — so that renaming it is not a missing anchor
+        acc = FIELD_ACCESSOR.get((adt, field))
+        real = field
+        if acc is not None:
+            ab = rep.need(prog.fn(acc), "fn " + acc)
+            handed = [n["f"] for n in ab.walk() if n["k"] == "Field" and (n.get("adt") or "") == adt and "param:self" in ab.canon(n["base"], 3)]
+            if len(set(handed)) == 1:
+                real = handed[0]
+            elif not handed or _field_type(prog, adt, field) is None:
+                # computed on the fly: ORDERED_RESULTS below decides on the result type alone
+                rep.ok("field:%s.%s" % (adt.split("::")[-1], field), "`%s` computes its result; decided by its return type" % acc.split("::")[-1])
+                continue
+        t = rep.need(_field_type(prog, adt, real), "field %s.%s" % (adt, real))
         inner = t
         h, args = split_generic(peel(inner))
         while h in ("std::option::Option", "std::cell::RefCell") and args:
